@@ -69,6 +69,8 @@ def term(t, V):
     k = t[0]
     if k == "lit":
         return t[1]
+    if k == "tlit":
+        return tuple(t[1])
     if k == "var":
         return V[t[1]]
     if k == "attr":
